@@ -44,6 +44,10 @@ type RefResult struct {
 	// LastID is the last event ID buffer after the last dispatched event.
 	LastID string
 	Lines  int
+	// RetryOutOfBounds: a digits-only retry value above 10^12 ms occurred. The
+	// properties bound retry values to 10^12 ms; whether such a field counts is
+	// left open (go-sse accepts what fits an int64).
+	RetryOutOfBounds bool
 }
 
 func isASCIIDigits(s string) bool {
@@ -171,6 +175,9 @@ func RefInterpret(stream []byte, initialID string, conn bool) RefResult {
 				}
 			case "retry":
 				if isASCIIDigits(string(value)) {
+					if n, ok := parseDecimal(string(value)); !ok || n > 1_000_000_000_000 {
+						res.RetryOutOfBounds = true
+					}
 					if n, ok := parseDecimal(string(value)); ok {
 						res.Retries = append(res.Retries, RefRetry{Millis: n, EventsSoFar: len(res.Events)})
 						if conn {
